@@ -238,6 +238,12 @@ class PrecipitateModel (PrecipitateBase):
                 self.PSDXalpha[p] = np.zeros((self.PBM[p].bins + 1,1))
                 self.PSDXbeta[p] = np.zeros((self.PBM[p].bins + 1,1))
 
+        #Remember the temperature the lookup table was computed at and the equilibrium compositions that belong to it
+        #_growthRateBinary compares the current temperature against this to decide when the table has to be updated
+        self._lookupTemperature = T
+        self._lookupXEq = (np.array(xEqAlpha), np.array(xEqBeta))
+        self.dTemp = 0
+
         return xEqAlpha, xEqBeta
     
     def _setupAspectRatio(self):
@@ -531,12 +537,12 @@ class PrecipitateModel (PrecipitateBase):
         #Update equilibrium interfacial compositions
         #This will be override if _createLookupBinary is called
         T = Y.temperature[0]
-        self.dTemp += T - self.pData.temperature[self.pData.n]
+        #Temperature change since the lookup table was last computed
+        self.dTemp = T - self._lookupTemperature
         if np.abs(self.dTemp) > self.constraints.maxTempChange:
             xEqAlpha, xEqBeta = self._createLookupBinary(T)
         else:
-            xEqAlpha, xEqBeta = np.array([self.pData.xEqAlpha[self.pData.n]]), np.array([self.pData.xEqBeta[self.pData.n]])
-            self.dTemp = 0
+            xEqAlpha, xEqBeta = np.array(self._lookupXEq[0]), np.array(self._lookupXEq[1])
         Y.xEqAlpha = xEqAlpha
         Y.xEqBeta = xEqBeta
         
@@ -646,7 +652,8 @@ class PrecipitateModel (PrecipitateBase):
                     else:
                         self.PSDXalpha[p] = np.concatenate((self.PSDXalpha[p], np.zeros((self.PBM[p].bins+1 - len(self.PSDXalpha[p]),1))))
                         self.PSDXbeta[p] = np.concatenate((self.PSDXbeta[p], np.zeros((self.PBM[p].bins+1 - len(self.PSDXbeta[p]),1))))
-                        self.PSDXalpha[p][addedIndices:,0], self.PSDXbeta[p][addedIndices:,0] = self.therm.getInterfacialComposition(self.pData.temperature[self.pData.n], self.particleGibbs(self.PBM[p].PSDbounds[addedIndices:], self.precipitateParameters[p].phase), precPhase=self.precipitateParameters[p].phase)
+                        #New size classes are computed at the temperature of the rest of the table
+                        self.PSDXalpha[p][addedIndices:,0], self.PSDXbeta[p][addedIndices:,0] = self.therm.getInterfacialComposition(self._lookupTemperature, self.particleGibbs(self.PBM[p].PSDbounds[addedIndices:], self.precipitateParameters[p].phase), precPhase=self.precipitateParameters[p].phase)
                 else:
                     self.PSDXalpha[p] = np.zeros((self.PBM[p].bins + 1, self.numberOfElements))
                     self.PSDXbeta[p] = np.zeros((self.PBM[p].bins + 1, self.numberOfElements))
